@@ -4,6 +4,8 @@ import FxVerif.Proofs.C20Args
 import FxVerif.Model.C20Run
 import FxVerif.Proofs.C20Msg
 import FxVerif.Gen.C20Msg
+import FxVerif.Proofs.C20Handler
+import FxVerif.Gen.C20Handler
 /-!
 # C20 — hostile input never crashes a node and cannot dodge the minimum fee
 
@@ -778,5 +780,114 @@ example : runAt table msgFuel "x/crosschain/types.MsgSendToExternal.ValidateBasi
       len := fun _ => 0, num := fun _ => 0, str := fun _ => [] } = .ok := by decide
 
 end Msg
+
+/-! ## handler-level panic sites: regenerated call graph, checked reachability certificates, containment by the transaction runner
+
+`Gen/C20Handler.lean`: the static call graph of the fx-core module, entry points by signature, every explicit `panic(…)` / `Must…`
+behind a transaction-level entry point of the bridge modules, the certificates `blockReach` / `ungatedReach` (bit masks), and what
+`baseapp` does with a panic (module cache).  `Proofs/C20Handler.closed_sound` holds for every graph. -/
+section Handler
+open FxVerif.Model.C20Handler FxVerif.Gen.C20Handler FxVerif.Proofs.C20Handler
+
+/-- both regenerated certificates check against the regenerated graphs: `blockReach` contains the block hooks and is closed
+under the call edges; `ungatedReach` contains the transaction-level entry points and is closed under the call edges that do
+not sit behind the vote-power threshold of `TryAttestation` -/
+theorem handler_certificates_check :
+    certifies graph blockRoots blockReach = true ∧ certifies ungatedGraph txRoots ungatedReach = true := by
+  decide +kernel
+
+/-- the transaction runner of `baseapp` (module cache, regenerated): the method that calls the ante handler and `runMsgs`
+installs its deferred `recover()` first, `deliverTx` reaches it, and NONE of the block-level functions recovers — so a panic
+in a transaction is an error result (`ErrPanic`, writes discarded) while a panic in a block hook stops the node -/
+theorem tx_runner_recovers_block_hooks_do_not :
+    runTxRecoversFirst = true ∧ deliverTxCallsRunTx = true ∧ blockFnsRecover = false ∧
+      blockFnsFound = ["beginBlock", "endBlock", "internalFinalizeBlock", "preBlock"] := by decide
+
+theorem explicit_panics_outside_blockReach :
+    (hsites.filter (·.isPanic)).all (fun s => !inSet blockReach s.fn) = true := by decide +kernel
+
+/-- **every explicit `panic(…)` behind a transaction-level entry point of the bridge modules is contained**: no call path from
+`PreBlocker` / `BeginBlock(er)` / `EndBlock(er)` of any fx-core module reaches the function it is in (a theorem about the
+regenerated call graph, through the checked certificate), and the transaction runner recovers.  Moving such a site — or a call
+to its function — into a block hook breaks this proof. -/
+theorem handler_panic_contained (s : HSite) (hs : s ∈ hsites) (hk : s.isPanic = true) :
+    ¬ reachableFrom graph blockRoots s.fn ∧ runTxRecoversFirst = true ∧ deliverTxCallsRunTx = true := by
+  refine ⟨?_, tx_runner_recovers_block_hooks_do_not.1, tx_runner_recovers_block_hooks_do_not.2.1⟩
+  apply certifies_sound graph blockRoots blockReach handler_certificates_check.1
+  have h := List.all_eq_true.1 explicit_panics_outside_blockReach s (by simp [List.mem_filter, hs, hk])
+  simpa using h
+
+/-- a `Must…` call that a block hook can reach works on the chain's own state: it decodes a store value, encodes an in-memory
+record, reads a field of a stored record, or has a constant / no operand — never a field of a message -/
+def ownState (s : HSite) : Bool := s.kind == "must" && ["store", "encode", "recv", "const", "none"].contains s.arg
+
+theorem block_reachable_sites_own_state :
+    (hsites.filter fun s => inSet blockReach s.fn).all ownState = true := by decide +kernel
+
+/-- **disposition of every site of the inventory**: not reachable from a block hook (contained by the transaction runner), or
+a `Must…` on the chain's own state -/
+theorem handler_sites_disposed (s : HSite) (hs : s ∈ hsites) :
+    ¬ reachableFrom graph blockRoots s.fn ∨ ownState s = true := by
+  by_cases hb : inSet blockReach s.fn = true
+  · right
+    exact List.all_eq_true.1 block_reachable_sites_own_state s (by simp [List.mem_filter, hs]; simpa using hb)
+  · left
+    apply certifies_sound graph blockRoots blockReach handler_certificates_check.1
+    simpa using hb
+
+/-- the quorum gate as written in `TryAttestation`: execution of the claim, the time-out sweeps and the pruning all sit behind
+`if attestationPower.LT(requiredPower) { continue }`, and none of them is also called in front of it -/
+theorem quorum_gate_as_written :
+    gateFunc = "x/crosschain/keeper.Keeper.TryAttestation" ∧ gateCond = "attestationPower.LT(requiredPower)" ∧
+    ["x/crosschain/keeper.Keeper.processAttestation", "x/crosschain/keeper.Keeper.cleanupTimedOutBatches",
+      "x/crosschain/keeper.Keeper.cleanupTimeOutBridgeCall", "x/crosschain/keeper.Keeper.pruneAttestations"].all
+        (fun f => gatedCallees.contains f && !ungatedCallees.contains f) = true := by decide
+
+/-- functions that execute an observed claim: what a hostile ORACLE QUORUM can steer (by number, through the regenerated names:
+a function that disappears makes this definition fail to compile) -/
+def claimExecutionFuncs : List Nat := [
+  fn.«x/crosschain/keeper.Keeper.OutgoingTxBatchExecuted»,     -- `unknown batch nonce …`, `Failed cancel out batch …`
+  fn.«x/crosschain/keeper.Keeper.cleanupTimedOutBatches»,      -- `Failed cancel out batch …`
+  fn.«x/crosschain/keeper.Keeper.CancelOutgoingTxBatch»,       -- `unable to add batched transaction back into pool`
+  fn.«x/crosschain/keeper.Keeper.UpdateOracleSetExecuted»,     -- `Potential bridge highjacking …`
+  fn.«x/crosschain/keeper.Keeper.SavePendingExecuteClaim»,
+  fn.«x/crosschain/keeper.Keeper.IterateAttestationAndClaim»   -- pruneAttestations: `couldn't cast to claim`
+]
+
+theorem claim_execution_outside_ungatedReach :
+    (hsites.filter fun s => claimExecutionFuncs.contains s.fn).all (fun s => !inSet ungatedReach s.fn) = true ∧
+    claimExecutionFuncs.all (fun f => hsites.any fun s => s.fn == f && s.isPanic) = true := by decide +kernel
+
+/-- **the panic hsites of claim execution can be reached from a transaction only through the calls behind the vote-power
+threshold**: in the call graph without those calls no message-server method, precompile `Run` or IBC callback reaches them.
+A single account (even a registered bridger) cannot steer them; ≥ 2/3 of the oracle power can, and then `handler_panic_contained`
+applies (error result, node keeps running). -/
+theorem claim_execution_sites_quorum_gated (s : HSite) (hs : s ∈ hsites) (hf : s.fn ∈ claimExecutionFuncs) :
+    ¬ reachableFrom ungatedGraph txRoots s.fn := by
+  apply certifies_sound ungatedGraph txRoots ungatedReach handler_certificates_check.2
+  have h := List.all_eq_true.1 claim_execution_outside_ungatedReach.1 s (by simp [List.mem_filter, hs]; simpa using hf)
+  simpa using h
+
+/-- the inventory is not vacuous: it holds the hsites named in the gap list; the entry points include the bridge's message
+server (`Claim`), its end-blocker, the application's end-blocker and the `executeClaim` precompile method -/
+theorem handler_inventory_has_key_sites :
+    hsites.any (fun s => s.fn == fn.«x/crosschain/keeper.Keeper.OutgoingTxBatchExecuted» && s.isPanic && s.conds.length == 1) = true ∧
+    hsites.any (fun s => s.fn == fn.«x/crosschain/keeper.Keeper.BridgeCallResultHandler» && s.isPanic) = true ∧
+    txRoots.contains fn.«x/crosschain/keeper.MsgServer.Claim» = true ∧
+    blockRoots.contains fn.«x/crosschain/keeper.Keeper.EndBlocker» = true ∧ blockRoots.contains fn.«app.App.EndBlocker» = true ∧
+    txRoots.contains fn.«x/crosschain/precompile.ExecuteClaimMethod.Run» = true ∧
+    30 ≤ (hsites.filter (·.isPanic)).length ∧ 10 ≤ blockRoots.length ∧ 60 ≤ txRoots.length := by decide +kernel
+
+-- the closure check distinguishes: a set that misses a callee is rejected, and then something outside it IS reachable
+example : closed [(0, [1]), (1, [2])] 0b011 = false := by decide
+example : closed [(0, [1]), (1, [2])] 0b111 = true := by decide
+example : reachableFrom [(0, [1]), (1, [2])] [0] 2 :=
+  ⟨0, by simp, Reach.step (b := 1) (Reach.step (b := 0) (Reach.refl 0) ⟨[1], by simp, by simp⟩) ⟨[2], by simp, by simp⟩⟩
+-- `bridge call not found` (BridgeCallResultHandler) is NOT behind the gate: `executeClaim` reaches it for anyone once a claim is
+-- parked — contained by the transaction runner, not by the quorum
+example : (hsites.filter fun s => s.fn == fn.«x/crosschain/keeper.Keeper.BridgeCallResultHandler»).all
+    (fun s => inSet ungatedReach s.fn && !inSet blockReach s.fn) = true := by decide +kernel
+
+end Handler
 
 end FxVerif.Props.C20
